@@ -144,7 +144,7 @@ func (f *flowSpec) Call(x *gea.Exec, st *gea.State, call *ast.CallExpr, env *gea
 	}
 	if callee.Pkg() == p.Types {
 		qn := core.QualName(callee)
-		if fi := p.ByObj[callee]; fi != nil && fi.Decl.Body != nil && (!pinnedFuncs[qn] || f.c.alsoInline[qn]) {
+		if fi := p.ByObj[callee]; fi != nil && fi.Decl.Body != nil && (!pinnedFuncs[qn] || f.c.alsoInline[qn]) && !f.c.opaqueNew[qn] {
 			return nil, false // a helper introduced after the review: explored in place (inlinePolicy)
 		}
 		if _, named := namedAtoms[qn]; (named && !f.noNamed) || f.quiet[qn] {
